@@ -71,6 +71,9 @@ typedef struct {
   // For #include_next: index in include_paths of the directory after
   // the one this file was found in
   int include_next_idx;
+
+  // Number of #include directives between the main file and this file
+  int include_depth;
 } File;
 
 // Token type
